@@ -96,11 +96,11 @@ func NamedSubtype(n string, v interface{}, st string) Arg {
 			return nil
 		}
 
-		n = strings.ToLower(n)
-		if a.namedSub[n] == nil {
-			a.namedSub[n] = map[string]reflect.Value{}
+		name := strings.ToLower(n)
+		if a.namedSub[name] == nil {
+			a.namedSub[name] = map[string]reflect.Value{}
 		}
-		a.namedSub[n][st] = rv
+		a.namedSub[name][st] = rv
 		return nil
 	}
 }
